@@ -3,7 +3,7 @@ import BppProofs.Props.C15ObsCopy
 import BppProofs.Props.C15DagObs
 /-!
 # C15 — a successful removal removes exactly the relation asked for
-(`GlobalGraph::unlink`, GlobalGraph.cpp:120; `removeSon` of AssociationTreeGraphImplObserver.h:260;
+(`GlobalGraph::unlink`, GlobalGraph.cpp:124; `removeSon` of AssociationTreeGraphImplObserver.h:260;
 `removeSon` / `removeFather` of AssociationDAGraphImplObserver.h:259 / :242)
 
 The driver evaluates the predicate `relationRemoved before after a b` (`BppModel/TreeObsCopy.lean`) on the
